@@ -241,6 +241,18 @@ def bbox_rows_case(seed):
                 out.append(('additive_over_rows_on_each_rows_own_bounding_box_window', sig, {'rows': rows, 'max_abs_diff': float(np.max(np.abs(full - singles)))}))
             elif not np.allclose(full, rev, rtol=1e-12, atol=1e-12):
                 out.append(('row_order_invariant', sig, {'rows': rows, 'max_abs_diff': float(np.max(np.abs(full - rev)))}))
+    # make_psf_model_image builds on make_model_image: the image it returns is the model image of the table it returns
+    from photutils.psf import make_psf_model_image
+    ms = rng.choice([(9, 9), (7, 11), (5, 5)])      # (without model_shape the function takes ONE window from the template model's bounding box: another rule)
+    try:
+        img, params = make_psf_model_image(shape, CircularGaussianPRF(), rng.randint(2, 8), model_shape=ms, flux=(50, 300), fwhm=(1.5, 4.0), min_separation=rng.choice([1, 6]),
+                                           seed=seed, border_size=rng.choice([None, (4, 3)]))
+        ref = make_model_image(shape, CircularGaussianPRF(), params, model_shape=ms)
+        if not np.array_equal(img, ref):
+            out.append(('make_psf_model_image_is_the_model_image_of_its_table', {'kind': 'psf_model_image', 'model_shape': list(ms) if ms else None, 'nrows': len(params)},
+                        {'max_abs_diff': float(np.max(np.abs(img - ref)))}))
+    except Exception as e:  # noqa
+        out.append(('raises', {'kind': 'psf_model_image', 'model_shape': list(ms) if ms else None}, {'exc': repr(e)}))
     return out
 
 
